@@ -15,7 +15,17 @@
      derives these from the fragment bytes.
    * User callbacks are oracles: `get_current_time` answers `base + now` or None (`ms_m_systime`).
    * Requests are rendered to bytes by `ms_request_bytes` (control octet, function code, class
-     headers / ms_time objects) exactly as the code formats them. *)
+     headers / time objects) exactly as the code formats them.
+   * The queue of user requests holds (token, kind) pairs of the four kinds the engine offers
+     (class read, link status, a request expecting an empty response, time synchronisation);
+     commands, restarts, file transfer etc. are the business of C15/C16.
+   * Observations `MsOUnsolIgnored`, `MsORestartSeen`, `MsOCleared`, `MsOAssoc`, `MsOLinkEnd`,
+     `MsOSleep`, `MsOStall` have no counterpart in the implementation's trace: they mark internal
+     decisions for the theorems and are not printed by the engine.
+   The model mirrors the code AFTER the repairs ed327bb (F15: retries at least 1 ms ahead),
+   5ddd770 (F16: link activity credited to the source), 86bdefd (CON-flagged non-READ responses
+   are confirmed), 588059f (unparseable unsolicited objects are not accepted) and dffa09f (link
+   status deadline fixed when the request is sent). *)
 From Coq Require Import ZArith NArith List Bool Lia.
 From Dnp3V Require Import Master.Backoff.
 Import ListNotations.
